@@ -64,7 +64,9 @@ type RigCfg struct {
 	RTCPWErrAt  int         `json:"rtcp_werr_at"` // the n-th RTCP write fails (0: never)
 	Reuse       bool        `json:"reuse"`        // callers reuse + scribble buffers (C13 variant B forces it)
 	DrainMs     int         `json:"drain_ms"`
-	Writers2    bool        `json:"writers2"` // two writer goroutines per local stream / two readers per remote stream
+	Writers2    bool        `json:"writers2"`      // two writer goroutines per local stream / two readers per remote stream
+	WriterLast  bool        `json:"writer_last"`   // BindRTCPWriter is called after the streams are bound
+	RTCPStallUs int64       `json:"rtcp_stall_us"` // the RTCP writer takes this long per call
 }
 
 type RigOp struct {
@@ -95,6 +97,7 @@ type rigOut struct {
 }
 
 type rigRTCPOut struct {
+	iter int // step at which the writing library goroutine last woke from one of its own waits
 	gid  int
 	step int
 	at   time.Duration
@@ -149,17 +152,22 @@ type Rig struct {
 	linfo   []*interceptor.StreamInfo
 	rinfo   []*interceptor.StreamInfo
 
-	Out      []*rigOut
-	RTCPOut  []*rigRTCPOut
-	Writes   []*rigWrite
-	Reads    []*rigRead
-	rtcpN    int
-	closed   int // step at which Close returned (0: not yet)
-	closeEnt int
-	unboundL []int // step of UnbindLocalStream return per stream (0: bound)
-	unboundR []int
-	BuildErr error
-	scribble bool
+	Out         []*rigOut
+	RTCPOut     []*rigRTCPOut
+	Writes      []*rigWrite
+	Reads       []*rigRead
+	rtcpN       int
+	closed      int // step at which Close returned (0: not yet)
+	closed2     int // step at which a second, overlapping Close returned
+	closeEnt    int
+	unboundL    []int // step of UnbindLocalStream return per stream (0: bound)
+	unboundR    []int
+	reboundL    []int
+	reboundR    []int
+	LiveAtClose []string // library goroutines still alive when Close returned
+	wake        map[int]int
+	BuildErr    error
+	scribble    bool
 }
 
 // rigSink is a harness io.Writer ("disk").
@@ -326,7 +334,14 @@ func (rg *Rig) Build(extra func(i int) interceptor.Factory) bool {
 }
 
 func newRig(e *Env, cfg RigCfg, ops []RigOp) *Rig {
-	return &Rig{e: e, cfg: cfg, ops: ops, unboundL: make([]int, len(cfg.Local)), unboundR: make([]int, len(cfg.Remote))}
+	wake := map[int]int{}
+	e.S.OnRelease = func(g *simrt.G, woke bool) {
+		// (a stall injected inside a harness writer is not a new iteration)
+		if woke && !g.App && g.Where() != "sleep" {
+			wake[g.ID] = e.S.Step()
+		}
+	}
+	return &Rig{wake: wake, e: e, cfg: cfg, ops: ops, unboundL: make([]int, len(cfg.Local)), unboundR: make([]int, len(cfg.Remote)), reboundL: make([]int, len(cfg.Local)), reboundR: make([]int, len(cfg.Remote))}
 }
 
 //go:norace
@@ -338,6 +353,7 @@ func (rg *Rig) logOut(o *rigOut) {
 //go:norace
 func (rg *Rig) logRTCP(o *rigRTCPOut) bool {
 	o.step, o.at = rg.e.S.Step(), rg.e.S.Now()
+	o.iter = rg.wake[o.gid]
 	rg.rtcpN++
 	if rg.cfg.RTCPWErrAt > 0 && rg.rtcpN == rg.cfg.RTCPWErrAt {
 		o.err = true
@@ -369,24 +385,22 @@ func (rg *Rig) logRead(r *rigRead, enter bool) {
 //go:norace
 func (rg *Rig) mark(p *int) { *p = rg.e.S.Step() }
 
+//go:norace
+func (rg *Rig) rebound(local bool, s int) {
+	if local {
+		rg.unboundL[s] = 0
+		rg.reboundL[s] = rg.e.S.Step()
+	} else {
+		rg.unboundR[s] = 0
+		rg.reboundR[s] = rg.e.S.Step()
+	}
+}
+
 // Bind wires the chain to the harness seams.
 func (rg *Rig) Bind() {
-	e := rg.e
-	rg.rtcpW = rg.chain.BindRTCPWriter(interceptor.RTCPWriterFunc(func(pkts []rtcp.Packet, _ interceptor.Attributes) (int, error) {
-		g := simrt.Cur()
-		o := &rigRTCPOut{pkts: pkts}
-		if g != nil {
-			o.gid = g.ID
-		}
-		if raw, err := rtcp.Marshal(pkts); err == nil {
-			o.raw = raw
-		}
-		if rg.logRTCP(o) {
-			e.Fault("rtcp_writer_err")
-			return 0, errInjected
-		}
-		return len(o.raw), nil
-	}))
+	if !rg.cfg.WriterLast {
+		rg.bindRTCPWriter()
+	}
 	for s, st := range rg.cfg.Local {
 		rg.linfo = append(rg.linfo, st.info())
 		rg.localW = append(rg.localW, rg.bindLocal(s))
@@ -398,6 +412,32 @@ func (rg *Rig) Bind() {
 	for i := 0; i < rg.cfg.RTCPReaders; i++ {
 		rg.rtcpR = append(rg.rtcpR, rg.bindRTCPReader(i))
 	}
+	if rg.cfg.WriterLast {
+		rg.bindRTCPWriter()
+	}
+}
+
+func (rg *Rig) bindRTCPWriter() {
+	e := rg.e
+	rg.rtcpW = rg.chain.BindRTCPWriter(interceptor.RTCPWriterFunc(func(pkts []rtcp.Packet, _ interceptor.Attributes) (int, error) {
+		g := simrt.Cur()
+		o := &rigRTCPOut{pkts: pkts}
+		if g != nil {
+			o.gid = g.ID
+		}
+		if raw, err := rtcp.Marshal(pkts); err == nil {
+			o.raw = raw
+		}
+		if rg.cfg.RTCPStallUs > 0 && g != nil && !g.App {
+			e.Fault("stall_rtcp_writer")
+			simrt.Sleep(us(rg.cfg.RTCPStallUs))
+		}
+		if rg.logRTCP(o) {
+			e.Fault("rtcp_writer_err")
+			return 0, errInjected
+		}
+		return len(o.raw), nil
+	}))
 }
 
 type rigCall struct {
@@ -733,6 +773,20 @@ func (rg *Rig) Run() {
 					rg.chain.UnbindRemoteStream(rg.rinfo[o.S])
 					rg.mark(&rg.unboundR[o.S])
 				}
+			case "bl":
+				if o.S < len(rg.cfg.Local) {
+					simrt.SleepUntil(us(o.AtUs))
+					e.Fault("rebind")
+					rg.localW[o.S] = rg.bindLocal(o.S)
+					rg.rebound(true, o.S)
+				}
+			case "br":
+				if o.S < len(rg.cfg.Remote) {
+					simrt.SleepUntil(us(o.AtUs))
+					e.Fault("rebind")
+					rg.remoteR[o.S] = rg.bindRemote(o.S)
+					rg.rebound(false, o.S)
+				}
 			case "close":
 				simrt.SleepUntil(us(o.AtUs))
 				e.Fault("close_at")
@@ -743,6 +797,20 @@ func (rg *Rig) Run() {
 				if pk, err := rtcp.Unmarshal(rg.rtcpFor(RigOp{RK: pick(rand.New(rand.NewSource(o.HS)), "pli", "fir", "rr", "nack"), HS: o.HS})); err == nil {
 					rg.rtcpW.Write(pk, interceptor.Attributes{})
 				}
+			}
+		}
+	}))
+	gs = append(gs, e.Go("lifecycle2", func() {
+		for _, o := range rg.ops {
+			if o.K == "close2" {
+				simrt.SleepUntil(us(o.AtUs))
+				e.Fault("second_close")
+				rg.chain.Close()
+				_, lib := rg.e.S.Live()
+				for _, g := range lib {
+					rg.LiveAtClose = append(rg.LiveAtClose, g.Site)
+				}
+				rg.mark(&rg.closed2)
 			}
 		}
 	}))
@@ -782,6 +850,10 @@ func (rg *Rig) DoClose() error {
 	rg.mark(&rg.closeEnt)
 	err := rg.chain.Close()
 	rg.mark(&rg.closed)
+	_, lib := rg.e.S.Live()
+	for _, g := range lib {
+		rg.LiveAtClose = append(rg.LiveAtClose, g.Site)
+	}
 	return err
 }
 
